@@ -84,10 +84,18 @@ def akiExt (keyId : Bytes) : Asn1 :=
 def keyUsageBits (kus : List KeyUsage) : Nat :=
   kus.foldl (fun acc k => acc ||| (32768 >>> k.index)) 0
 
-/-- certificate.rs:466-482 (`write_bitvec_bytes(&bits.to_be_bytes(), 9)`) -/
+/-- number of trailing zero bits of a 16-bit value (16 for 0) -/
+def trailingZeros16 (v : Nat) : Nat :=
+  match (List.range 16).find? (fun i => (v >>> i) % 2 == 1) with
+  | some i => i
+  | none => 16
+
+/-- certificate.rs `write_key_usage`: the named bit list without its trailing zero bits:
+    `bits = 16 - trailing_zeros`, the first `ceil(bits/8)` bytes of the big-endian value -/
 def keyUsageValue (kus : List KeyUsage) : Asn1 :=
   let v := keyUsageBits kus
-  .bitString [UInt8.ofNat (v / 256), UInt8.ofNat (v % 256)] 9
+  let bits := 16 - trailingZeros16 v
+  .bitString ([UInt8.ofNat (v / 256), UInt8.ofNat (v % 256)].take ((bits + 7) / 8)) bits
 
 def keyUsageExt (kus : List KeyUsage) : List Asn1 :=
   if kus.isEmpty then [] else [extOf [2, 5, 29, 15] true (keyUsageValue kus)]
@@ -136,7 +144,7 @@ def CidrSubnet.fromV6Prefix (addr : Bytes) (pfx : Nat) : CidrSubnet := .v6 addr 
 def subtreeNode : GeneralSubtree → Asn1
   | .rfc822 b => .seq [.implicit 1 (.ia5 b)]
   | .dns b => .seq [.implicit 2 (.ia5 b)]
-  | .directoryName dn => .seq [.implicit 4 (writeDistinguishedName dn)]
+  | .directoryName dn => .seq [.explicit 4 (writeDistinguishedName dn)]   -- Name is a CHOICE
   | .ip c => .seq [.implicit 7 (.octets c.bytes)]
 
 def subtreesNode (tag : Nat) (ts : List GeneralSubtree) : Asn1 :=
@@ -173,16 +181,16 @@ def caExts (H : Hashes) (p : CertParams) (subject : PubKey) : List Asn1 :=
      extOf [2, 5, 29, 19] true
        (.seq (.bool true :: (match pl with | some n => [Asn1.intOfNat n] | none => [])))]
   | .explicitNoCa =>
-    [skiExt H p subject, extOf [2, 5, 29, 19] true (.seq [.bool false])]
+    [skiExt H p subject, extOf [2, 5, 29, 19] true (.seq [])]   -- cA DEFAULT FALSE left out
   | .noCa => []
 
 def customExtNode (e : CustomExtension) : Asn1 := extNode e.oid e.critical e.content
 
 /-- certificate.rs:691-697 -/
 def shouldWriteExts (p : CertParams) : Bool :=
-  p.useAki || !p.sans.isEmpty || !p.ekus.isEmpty ||
+  p.useAki || !p.sans.isEmpty || !p.keyUsages.isEmpty || !p.ekus.isEmpty ||
   (match p.nameConstraints with | some nc => !nc.isEmpty | none => false) ||
-  p.isCa != .noCa || !p.customExts.isEmpty
+  !p.crlDps.isEmpty || p.isCa != .noCa || !p.customExts.isEmpty
 
 /-- certificate.rs:704-714 -/
 def akiValue (H : Hashes) (issuer : Issuer) : Bytes :=
@@ -221,11 +229,51 @@ def tbsCertificate (H : Hashes) (p : CertParams) (subject : PubKey) (issuer : Is
 def selfIssuer (p : CertParams) (key : PubKey) : Issuer :=
   { dn := p.dn, keyIdMethod := p.keyIdMethod, keyUsages := p.keyUsages, key := key }
 
-/-! ### assertion sites of the DER writer reached from certificate generation -/
+/-! ### up-front validation (`check_time`, `check_name`, `check_oid`, `check_ia5`) and the
+    assertion sites of the DER writer that remain behind it -/
 
+/-- first error of a list of checks, in order -/
+def firstErr : List (Option Err) → Option Err
+  | [] => none
+  | some e :: _ => some e
+  | none :: rest => firstErr rest
+
+def checkTime (dt : DateTime) : Option Err := if timeEncodable dt then none else some .time
+def checkOid (o : List Nat) : Option Err := if oidOk o then none else some .invalidOid
+def checkIa5 (b : Bytes) : Option Err := if isAscii b then none else some .invalidAsn1String
+
+/-- lib.rs `check_name`: custom attribute types, in enumeration order -/
+def checkName (dn : DistinguishedName) : Option Err :=
+  firstErr (dn.iter.map (fun e => match e.1 with
+    | .custom o => checkOid o
+    | _ => none))
+
+/-- certificate.rs `check_extension_oids` -/
+def checkExtensionOids (p : CertParams) : Option Err :=
+  firstErr (
+    p.sans.map (fun s => match s with | .otherName o _ => checkOid o | _ => none) ++
+    p.ekus.map (fun e => checkOid e.oid) ++
+    p.customExts.map (fun e => checkOid e.oid))
+
+def checkSubtree : GeneralSubtree → Option Err
+  | .rfc822 b | .dns b => checkIa5 b
+  | .directoryName dn => checkName dn
+  | .ip _ => none
+
+/-- the checks at the head of `serialize_der_with_signer`, in order -/
+def certInvalid (p : CertParams) (issuer : Issuer) : Option Err :=
+  firstErr (
+    [checkTime p.notBefore, checkTime p.notAfter, checkName issuer.dn, checkName p.dn,
+     checkExtensionOids p] ++
+    (match p.nameConstraints with
+     | some nc => (nc.permitted ++ nc.excluded).map checkSubtree
+     | none => []) ++
+    p.crlDps.flatMap (fun dp => dp.uris.map checkIa5))
+
+/-- values of the validated string types carry their invariant (string.rs constructors, C13);
+    a value violating it would reach yasna's IA5 assertion -/
 def dnValuePanics : DnValue → Bool
   | .ia5 b => !isAscii b
-  | .printable b => !b.all yasnaPrintableByte
   | _ => false
 
 def dnPanics (dn : DistinguishedName) : Bool :=
@@ -250,7 +298,8 @@ def extensionsPanic (p : CertParams) : Bool :=
   p.crlDps.any (fun dp => dp.uris.any (fun u => !isAscii u)) ||
   p.customExts.any (fun e => !oidOk e.oid)
 
-/-- does generating the certificate hit an assertion of yasna/time? -/
+/-- does writing the certificate hit an assertion of yasna/time? (evaluated only after
+    `certInvalid` found nothing) -/
 def certPanics (p : CertParams) (issuer : Issuer) : Bool :=
   dnPanics issuer.dn || timePanics p.notBefore || timePanics p.notAfter || dnPanics p.dn ||
   (shouldWriteExts p && extensionsPanic p)
